@@ -384,6 +384,6 @@ def who_writes(R, ctx):
                 if s['rv']['k'] == 'ref' and s['rv']['mut'] and 'current_size' in place_fields(s['rv']['place']):
                     writers.add(b.path)
     for w in sorted(writers):
-        R.check('R08.6', f"writer:{w}", w in allowed, "expected writer of current_size", f"unexpected function writing current_size: {w}", where=f.bodies[w].loc())
+        R.check('R08.6', f"writer:{root_fn(w)}", only_called_from(ctx.cg, root_fn(w), set(allowed)), "expected writer of current_size (or a private helper of one)", f"unexpected function writing current_size: {w}", where=f.bodies[w].loc())
     if not writers:
         raise CheckError('no writer of current_size found')
